@@ -225,6 +225,73 @@ pub fn scenario(idx: usize, seed: u64, max_body: usize, max_conc: usize) -> Scen
         if let Some(t) = blackout_task {
             t.abort();
         }
+        // look-alike requests: pairs on one route, with the same number of headers, whose header maps
+        // differ only in WHERE names end and values begin (the multiset of name||value strings is
+        // equal), in which value belongs to which name, or in one byte of a long value; sent back
+        // to back and concurrently from one node.  Anything that identifies, caches, interns or
+        // compares requests by a digest of their parts must still deliver each one exactly.
+        let mut lookalikes = 0u64;
+        if rng.gen_bool(0.4) {
+            let from = rng.gen_range(0..n_nodes);
+            let to = if from == 0 { 1 } else { from - 1 };
+            let route = gen_route(&mut rng);
+            let script = Script { delay_us: 0, resp_len: 10, status: 200, nhdr: 0, seed: 5 };
+            for k in 0..rng.gen_range(2..8usize) {
+                let (a, b) = (w.next_id(), w.next_id());
+                let (sa, sb) = (a.to_string(), b.to_string());
+                let mut ha = Headers::new();
+                let mut hb = Headers::new();
+                match k % 4 {
+                    0 => {
+                        // split points shifted; the unique-id headers are mirrored as well so that
+                        // the two maps consist of exactly the same name||value strings
+                        let word = format!("shard{}", rng.gen_range(10..99));
+                        let cut = rng.gen_range(1..word.len());
+                        ha.insert(word[..cut].to_owned(), word[cut..].to_owned());
+                        hb.insert(word[..cut - 1].to_owned() + "", word[cut - 1..].to_owned());
+                        let ka = rng.gen_range(0..sb.len());
+                        ha.insert(format!("{}{}", world::H_ID, &sb[..ka + 1]), sb[ka + 1..].to_owned());
+                        let kb = rng.gen_range(0..sa.len());
+                        hb.insert(format!("{}{}", world::H_ID, &sa[..kb + 1]), sa[kb + 1..].to_owned());
+                    }
+                    1 => {
+                        // values swapped between two names
+                        ha.insert("k1".into(), "v1".into());
+                        ha.insert("k2".into(), "v2".into());
+                        hb.insert("k1".into(), "v2".into());
+                        hb.insert("k2".into(), "v1".into());
+                    }
+                    2 => {
+                        // one byte apart, far into a long value
+                        let l = rng.gen_range(100..5_000);
+                        let v: String = (0..l).map(|j| (b'a' + (j % 26) as u8) as char).collect();
+                        let mut v2 = v.clone().into_bytes();
+                        let at = rng.gen_range(0..l);
+                        v2[at] = if v2[at] == b'z' { b'a' } else { v2[at] + 1 };
+                        ha.insert("long".into(), v);
+                        hb.insert("long".into(), String::from_utf8(v2).unwrap());
+                    }
+                    _ => {
+                        // name/value exchanged, and empty halves
+                        ha.insert("ab".into(), "".into());
+                        hb.insert("a".into(), "b".into());
+                        ha.insert("x".into(), "yz".into());
+                        hb.insert("xy".into(), "z".into());
+                    }
+                }
+                let spa = RpcSpec { route: route.clone(), headers: ha, body: gen_bytes(a, 33), script: Some(script.clone()) };
+                let spb = RpcSpec { route: route.clone(), headers: hb, body: gen_bytes(a, 33), script: Some(script.clone()) };
+                let (log, net, ni, peer) = (w.log.clone(), nodes[from].net.clone(), nodes[from].idx, nodes[to].peer_id);
+                let lim = Duration::from_secs(120);
+                if rng.gen_bool(0.6) {
+                    let _ = tokio::time::timeout(lim, world::rpc_with_id(&log, &net, ni, peer, a, &spa)).await;
+                    let _ = tokio::time::timeout(lim, world::rpc_with_id(&log, &net, ni, peer, b, &spb)).await;
+                } else {
+                    let _ = tokio::time::timeout(lim, futures::future::join(world::rpc_with_id(&log, &net, ni, peer, a, &spa), world::rpc_with_id(&log, &net, ni, peer, b, &spb))).await;
+                }
+                lookalikes += 2;
+            }
+        }
         let g = w.log.lock();
         let mut stats = world::DeliveryStats::default();
         let problems = world::check_delivery(&g, &mut stats);
@@ -284,6 +351,7 @@ pub fn scenario(idx: usize, seed: u64, max_body: usize, max_conc: usize) -> Scen
             .count("rpc_ok", stats.ok as u64)
             .count("rpc_err", stats.err as u64)
             .count("handler_starts", stats.starts as u64)
+            .count("lookalike_requests", lookalikes)
             .count("out_of_order_completions", inversions)
             .count("datagrams_sent", fstats.sent)
             .count("datagrams_lost", fstats.lost)
